@@ -333,16 +333,17 @@ def run_sampler(case, counters, viol, nontrivial):
     nontrivial.add(f"run|{xpn}|{dt}|{smp}|{pc}")
     if pc:
         return
-    # output-namespace option
-    for b in NS:
-        a3, _ = make_aspire(t, xpn, dtype=dt, seed=1)
+    # output-namespace option (precision requested as a string and as a native dtype object of the sampling namespace)
+    for b, dt_req in [(b, d_) for b in NS for d_ in ([dt] if dt is None else [dt, native(xpn, dt[-2:])])]:
+        a3, _ = make_aspire(t, xpn, dtype=dt_req, seed=1)
         counters["output_option_judged"] += 1
+        counters["output_option_with_native_dtype_object"] += int(dt_req is not None and not isinstance(dt_req, str))
         try:
             r = a3.sample_posterior(16, sampler="importance", xp=env.xp_of(b))
         except Exception as exc:  # noqa: BLE001
-            viol.append({"mech": "C15/sample_posterior-xp-raises", "detail": f"{where} -> xp={b}: {type(exc).__name__}: {str(exc)[:160]}"})
+            viol.append({"mech": "C15/sample_posterior-xp-raises", "detail": f"{where} (dtype given as {dt_req!r}) -> xp={b}: {type(exc).__name__}: {str(exc)[:160]}"})
             continue
-        a4, _ = make_aspire(t, xpn, dtype=dt, seed=1)
+        a4, _ = make_aspire(t, xpn, dtype=dt_req, seed=1)
         r0 = a4.sample_posterior(16, sampler="importance")
         if ns_name_of_array(r.x) != b or (width_of(r.x) != width_of(r0.x)) or not np.array_equal(_vals(r.x), _vals(r0.x)) or not np.allclose(
             _vals(r.log_w), _vals(r0.log_w), rtol=1e-6
